@@ -12,6 +12,9 @@ CHECKS = {
  'C07': dict(level='model_checking', technique='symbolic execution (z3) of calc_score/calc_bid_score/Contract.is_vul over one fully symbolic contract; closed-form oracle; two-call history-independence query',
              text='The whole finite domain (bids x flags x vulnerability x declarer x tricks, plus passed-out) is covered symbolically: every feasible path of the real scoring code is one unsat query against an independent closed form; a second family of queries scores two symbolic contracts in sequence so that module-level state cannot make a score depend on history.',
              note='Trusted: interpreter, z3, the closed-form oracle (landmark-checked against published figures).', ref='§4 C07'),
+ 'C15': dict(level='model_checking', technique='symbolic execution (z3) of every converter pair on one symbolic value per domain; two-copy queries for injectivity and card order',
+             text='Complete finite domains covered symbolically: each feasible path of str/int/name conversions in both directions is one unsat query for the identity; injectivity and order-vs-index are two-copy queries over the same symbolic runs.',
+             note='Trusted: interpreter (counterexamples replayed on CPython), z3, enum members identified by integer value.', ref='§4 C15'),
 }
 
 
